@@ -193,6 +193,6 @@ end LA.Netlink
 
 /-! ### the code keeps nothing between calls that the model does not have -/
 
-/-- Outside `init`, no function of the root package writes a package-level variable, takes the address of one or calls a
+/-- Outside `init`, no function of the root package writes a package-level variable, hands the address of one to a function or calls a
 sync/atomic method on one (regenerated list, see LA.Proofs.StateFacts): all state is in the object the model is given. -/
 theorem C18_state_is_in_the_object : LA.StateFacts.ofPkg "" = [] := by decide
